@@ -455,13 +455,13 @@ Definition dispatch_views (name : string) (a : list tok) : option (list tok * li
       let t := norm_ts t in
       if f_finite_bits xb then
         Some (tdur3 (dur (from_mjd_in_time_scale (f_of_bits xb) (ts_of_Z t))),
-              let '(lo, hi) := affine_range xb (2 * 15020) DAY_NS in [TNoSpec; TNoSpec; range_tok_clamped lo hi])
+              let '(lo, hi) := affine_range xb (2 * 15020) DAY_NS in let z := spec_gregorian_zero t in [TNoSpec; TNoSpec; range_tok_clamped (lo - z) (hi - z)])
       else None
   | "from_jde"%string, [TZ xb; TZ t] =>
       let t := norm_ts t in
       if f_finite_bits xb then
         Some (tdur3 (dur (from_jde_in_time_scale (f_of_bits xb) (ts_of_Z t))),
-              let '(lo, hi) := affine_range xb (2 * 2415020 + 1) DAY_NS in [TNoSpec; TNoSpec; range_tok_clamped lo hi])
+              let '(lo, hi) := affine_range xb (2 * 2415020 + 1) DAY_NS in let z := spec_gregorian_zero t in [TNoSpec; TNoSpec; range_tok_clamped (lo - z) (hi - z)])
       else None
   | "from_unix_s"%string, [TZ xb] =>
       Some (match from_unix_seconds (f_of_bits xb) with Some e => tdur3 (dur e) | None => nospec end,
@@ -651,6 +651,32 @@ Definition dispatch_parse (name : string) (a : list tok) : option (list tok * li
   | "lex_i64"%string, [TL s] => Some (topt_z (lex_i64 s), nopanic)
   | "lex_u64"%string, [TL s] => Some (topt_z (lex_int false 0 U64_MAX s), nopanic)
   | "lex_f64"%string, [TL s] => Some (tlexf (lex_f64 s), nopanic)
+  (* numeric forms "JD x TS" / "MJD x TS" / "SEC x TS": x given as sign, integer digits and fraction digits; the spec is the instant
+     the text denotes, from the exact decimal, within the resolution of a double of that magnitude *)
+  | "p_num"%string, [TZ form; TZ neg; TL ip; TL fp; TZ t] =>
+      let t := norm_ts t in
+      let txt := (match form with 1 => [74;68] | 2 => [77;74;68] | _ => [83;69;67] end) ++ [32] ++ (if neg =? 1 then [45] else []) ++ ip ++
+                 (match fp with [] => [] | _ => 46 :: fp end) ++ [32] ++ spec_ts_name t in
+      let num := fold_left (fun a c => a * 10 + (c - 48)) (ip ++ fp) 0 in
+      let num := if neg =? 1 then - num else num in
+      let den := 10 ^ Z.of_nat (List.length fp) in
+      let unit_ns := if form =? 3 then NS_PER_S else NS_PER_DAY in
+      (* reference value of the form (days) as a rational over 2, and the scale's calendar zero *)
+      let ref2 := match form with 1 => 2 * 2415020 + 1 | 2 => 2 * 15020 | _ => 0 end in
+      let supported := match form with
+                       | 1 => (t =? 0) || (t =? 4)
+                       | 2 => (t =? 0) || (t =? 4) || (t =? 5) || (t =? 6) || (t =? 7)
+                       | _ => negb (is_float_id_early t) end in
+      let exact2 := (* twice the exact count in ns, times den *) (2 * num - ref2 * den) * unit_ns - (if form =? 3 then 0 else 2 * spec_gregorian_zero t * den) in
+      let mag := Z.abs num / den + Z.abs ref2 + 1 in
+      let tol := mag * unit_ns / 2 ^ 50 + 2 in
+      Some (match epoch_from_str txt with
+            | POk e => [TZ 1; TZ (val (dur e)); TZ (ts_id (scale e))]
+            | PErr k => [TErr k] | PPanic => [TPanic] | PUnmodelled => nospec end,
+            if is_float_id_early t then nopanic
+            else if negb supported then [TErr E_UnsupportedTimeSystem]
+            else let lo := exact2 / (2 * den) - tol in let hi := exact2 / (2 * den) + 1 + tol in
+                 if in_rangev lo && in_rangev hi then [TZ 1; TRange lo hi; TZ t] else nopanic)
   (* round trips: render with the model of the formatter, parse with the model of the parser; spec: the same epoch / duration *)
   | "rt_disp"%string, [TZ c; TZ n; TZ t] =>
       let t := norm_ts t in let e := mk_epoch c n t in
